@@ -6,7 +6,8 @@
            octets inside a larger message, equality, the re-encoding, the number of octets
            the parser consumed, the projection of the decoded object
      dec   an octet string (fault ft applied to the encoding, an ill-formed value's
-           encoding, or seeded noise) was offered to dns.rdata.from_wire as RDATA
+           encoding, or seeded noise) was offered to dns.rdata.from_wire as RDATA, in three
+           placements: middle of a message, tail of a message (tl), whole buffer (wh)
      foreign the type's RDATA decoded in a class without implementation (fresh-process scenario:
            the first lookup of a type in a process may be in any class)
      cover number of value vectors the run executed for a type
@@ -53,19 +54,37 @@ TEnc ==
                                         m >= n /\ \A i \in 1..n : Ev(t)[m - n + i].op \in {"dec", "hang"} /\ Ev(t)[m - n + i].ft = e.fts[i])
     /\ Adv
 
+\* Clauses for one placement of the octets b inside a message: p = the recorded outcome, d = the
+\* specification's verdict for that placement, re / re2 = the recorded re-encodings, sfx tags the clause
+\* name with the placement.
+Placed(p, b, d, re, re2, sfx) ==
+    /\ C("MustAccept" \o sfx, d.res = "ok" => p.res = "ok")
+    /\ C("NoTrailingOctets" \o sfx, (d.res = "err" /\ d.why = "trailing") => p.res = "err")
+    /\ C("MustReject" \o sfx, (d.res = "err" /\ d.why = "short") => p.res = "err")
+    /\ C("SameVerdictBothApis" \o sfx, p.pres = p.res /\ p.same)
+    /\ IF p.res = "err" THEN C("FormError" \o sfx, p.formerr)
+       ELSE /\ C("ConsumedExactly" \o sfx, p.cons = Len(b))
+            /\ C("ReencodeSpec" \o sfx, d.res = "ok" => re = Encode(ty, d.v, NoOrigin))
+            /\ C("FixedPoint" \o sfx, p.eq2 /\ re2 = re)
+\* a placement repeats a re-encoding only when it differs from the middle placement's
+Re(p, k) == IF HasKey(p, k) THEN p[k] ELSE e[k]
+Undecided == Verdict("free", "-", <<>>, FALSE)
+
 TDec ==
     /\ e.op = "dec"
     /\ LET b == e.b
+           \* middle of a message (octets before and after) and tail of a message (nothing after): the
+           \* parse is confined to the rdlen octets, so the verdict is the same
            d == Dec(ty, b, NoOrigin)
+           \* the RDATA is the whole buffer (offset 0): compression pointers mean something else, so the
+           \* verdict is recomputed; for the pointer / octet-value faults only the clauses that need no
+           \* verdict (both APIs agree, FormError, consumption, fixed point) are evaluated
+           dw == IF e.ft[1] \in {"none", "trunc", "ext", "rand"} THEN Decode(ty, b, 0, Len(b), NoOrigin) ELSE Undecided
        IN /\ C("FaultInput", e.ft[1] \in {"none", "rand"} \/ b = ApplyFault(Ev(t)[1].wire, e.ft))
-          /\ C("MustAccept", d.res = "ok" => e.res = "ok")
-          /\ C("NoTrailingOctets", (d.res = "err" /\ d.why = "trailing") => e.res = "err")
-          /\ C("MustReject", (d.res = "err" /\ d.why = "short") => e.res = "err")
-          /\ C("SameVerdictBothApis", e.pres = e.res /\ e.same)
-          /\ IF e.res = "err" THEN C("FormError", e.formerr)
-             ELSE /\ C("ConsumedExactly", e.cons = Len(b))
-                  /\ C("ReencodeSpec", d.res = "ok" => e.reenc = Encode(ty, d.v, NoOrigin))
-                  /\ C("FixedPoint", e.eq2 /\ e.reenc2 = e.reenc)
+          /\ Placed(e, b, d, IF e.res = "ok" THEN e.reenc ELSE <<>>, IF e.res = "ok" THEN e.reenc2 ELSE <<>>, "")
+          /\ C("HasPlacements", HasKey(e, "tl") /\ HasKey(e, "wh"))
+          /\ Placed(e.tl, b, d, IF e.tl.res = "ok" THEN Re(e.tl, "reenc") ELSE <<>>, IF e.tl.res = "ok" THEN Re(e.tl, "reenc2") ELSE <<>>, "@tail")
+          /\ Placed(e.wh, b, dw, IF e.wh.res = "ok" THEN Re(e.wh, "reenc") ELSE <<>>, IF e.wh.res = "ok" THEN Re(e.wh, "reenc2") ELSE <<>>, "@whole")
     /\ Adv
 
 \* the RDATA of the type offered in a class that has no implementation for it (RFC 3597 section 5:
